@@ -91,6 +91,18 @@ CLAIMED['C10'] = (
     'the cryptodatahub tables are the reference for which codes are defined; quick tier: the [known, code] order of '
     '16-bit vectors covers a seed-rotated quarter of the space', '5 C10')
 
+CLAIMED['C06'] = (
+    'against an encoder written independently from the RFC text (symcheck/refs/tls_ref.py): TLS records (every content '
+    'type x version, symbolic fragment, 2^14 and 2^16-1 boundaries), client hello (version, each cipher suite position '
+    'over the 16-bit space incl. SCSV/GREASE/unknown, session id 0/1/32, compression, extension block absent/empty), '
+    'server hello, 14 extension types with symbolic codes/opaque parts, certificate chain, certificate request with '
+    'and without signature algorithms, certificate status, server key exchange, hello done, CCS, SSL 2.0 error and '
+    'client hello: parse(ref(fields)) has exactly the fields and composes back to ref(fields); constructed objects '
+    'compose to ref(fields). Native side condition: floor/ceiling/prefix width of every TLS vector class against the '
+    'RFC table of the reference',
+    'one symbolic dimension per shard; quick tier covers seed-rotated code ranges for 16-bit spaces (ranges holding '
+    'the SCSV and first GREASE values always included); the reference encoder is trusted', '5 C06')
+
 NOT_APPLICABLE = {
     'C19': 'asymptotic claim (work linear in input size for n, 2n, 4n, ...): a bounded symbolic execution fixes the '
            'input size, so a pass says nothing about growth; the total-work bound needs an amortised argument over '
